@@ -591,6 +591,14 @@ def _unit_term(t):
             return True, "exp(non-positive) in (0, 1]"
         if x.op == "bin" and x.a[0] in ("/", "*") and x.a[1].op == "un" and x.a[1].a[0] == "-" and _nonneg_term(x.a[1].a[1]) and _pos_term(x.a[2]):
             return True, "exp(non-positive) in (0, 1]"
+    if t.op in ("cmp", "bool") or (t.op == "un" and t.a[0] == "not") or (t.op == "call" and call_name(t) in ("builtins.any", "builtins.all", "np.any", "np.all", "builtins.bool")):
+        return True, "a truth value (0 or 1)"
+    if t.op == "ite":
+        a, b = _unit_term(t.a[1]), _unit_term(t.a[2])
+        za = tm.is_const(t.a[1], 0) or tm.is_const(t.a[1], False)
+        zb = tm.is_const(t.a[2], 0) or tm.is_const(t.a[2], False)
+        if (a[0] or za) and (b[0] or zb):
+            return True, "1 or 0"
     return False, "summand %s is not recognisably within [0, 1]" % tm.show(t, 3)
 
 
